@@ -237,7 +237,7 @@ def two_connections(va, vb, hist_a, hist_b, seed, thr_a, thr_b):
     return run, out
 
 
-def pending_write_scenario(version, seed, n_pending, policy=None):
+def pending_write_scenario(version, seed, n_pending, policy=None, kick=False):
     """The server sends its disconnect packet and closes while the client still has packets queued: the failing write
     is not an error (the disconnect packet explains it): clean exit, exit callback once, no error reported."""
     from minecraft.networking.packets import Packet, serverbound
@@ -248,7 +248,10 @@ def pending_write_scenario(version, seed, n_pending, policy=None):
     def factory(idx, sess):
         sc = TracingScript(run, prof, [])
         sc.steps = [('expect', 2), ('send', prof.login_success(bytes(range(16)), 'verif')),
-                    ('call', lambda s: setattr(s, 'state', 'play')), ('pause', 'go'),
+                    ('call', lambda s: setattr(s, 'state', 'play')),
+                    # kick: the server answers the first packet of a burst with its disconnect packet and closes, so the
+                    # rest of the burst fails in the client's write phase *before* the disconnect packet is read
+                    (('expect', 3) if kick else ('pause', 'go')),
                     sc.tagged(prof.play_disconnect('{"text":"bye"}'), 'disc', []), ('close',)]
         holder['sc'] = sc
         return sc
@@ -259,7 +262,8 @@ def pending_write_scenario(version, seed, n_pending, policy=None):
         c.register_packet_listener(lambda p: run.ev('deliver', p=packet_obs(p, prof)), Packet)
         c.connect()
         run.settle()
-        holder['sc'].resume('go')           # disconnect packet + close are on their way
+        if not kick:
+            holder['sc'].resume('go')       # disconnect packet + close are on their way
         for k in range(n_pending):          # ... while the application keeps queueing packets
             c.write_packet(serverbound.play.ChatPacket(message='late %d' % k))
     run.go(scenario)
@@ -445,13 +449,13 @@ def run(chk):
         # random schedules: the failing write may happen in the write phase (deferred, then cancelled by the disconnect
         # packet read afterwards) or in disconnect()'s own flush
         pol = vsched.RandomPolicy(chk.seed * 8191 + j, switch_prob=[0.2, 0.5, 0.8][j % 3]) if j % 4 else None
-        run_, tr = pending_write_scenario(version, chk.seed * 4099 + j, n_pending=[1, 2, 5][j % 3], policy=pol)
+        run_, tr = pending_write_scenario(version, chk.seed * 4099 + j, n_pending=[1, 2, 5][j % 3] + (j % 2), policy=pol, kick=(j % 2 == 1))
         chk.traces += 1
         chk.case(('pending', j))
         if run_.outcome != 'done' or run_.errors or run_.exits != 1:
             chk.violation('play:disconnect-with-pending-writes',
                           'server disconnect packet + close with %d packets still queued at protocol %d: execution %s, exit callback ran '
-                          '%d times, errors %r' % ([1, 2, 5][j % 3], version, run_.outcome, run_.exits, run_.errors[:2]), {'version': version})
+                          '%d times, errors %r' % ([1, 2, 5][j % 3] + (j % 2), version, run_.outcome, run_.exits, run_.errors[:2]), {'version': version, 'kick': bool(j % 2)})
         all_traces.append(tr)
 
     # ---- 4. validate all traces against the contract
